@@ -119,4 +119,19 @@ example : (8 : Int) * 2^20 * 2^20 < 2^53 := by decide
 example : segmentIntersect ⟨0,0⟩ ⟨2,2⟩ ⟨0,2⟩ ⟨2,0⟩ = true := by norm_num [segmentIntersect, vecDir, area2]
 example : pointOnLine ⟨0,0⟩ ⟨2,2⟩ ⟨1,1⟩ = true := by norm_num [pointOnLine, inBetween, strictBetween, vecDir, area2, absR, eps]
 
+-- non-vacuity of segmentIntersectPoint_sound: both premises (DO_INTERSECT, PARALLEL) occur
+example : segmentIntersectPoint ⟨0,0⟩ ⟨2,2⟩ ⟨0,2⟩ ⟨2,0⟩ = (DO_INTERSECT, 1, 1) := by decide +kernel
+example : segmentIntersectPoint ⟨0,0⟩ ⟨2,0⟩ ⟨1,0⟩ ⟨3,0⟩ = (PARALLEL, 0, 0) := by decide +kernel
+-- non-vacuity of inPoly_iff: a square has 4 edges (the `∀ e ∈ edges poly` is not over the empty list);
+-- interior / border / exterior point
+example : (edges [⟨0,0⟩, ⟨2,0⟩, ⟨2,2⟩, ⟨0,2⟩]).length = 4 ∧
+    inPoly [⟨0,0⟩, ⟨2,0⟩, ⟨2,2⟩, ⟨0,2⟩] ⟨1,1⟩ false = true ∧
+    inPoly [⟨0,0⟩, ⟨2,0⟩, ⟨2,2⟩, ⟨0,2⟩] ⟨0,1⟩ true = true ∧
+    inPoly [⟨0,0⟩, ⟨2,0⟩, ⟨2,2⟩, ⟨0,2⟩] ⟨0,1⟩ false = false ∧
+    inPoly [⟨0,0⟩, ⟨2,0⟩, ⟨2,2⟩, ⟨0,2⟩] ⟨3,1⟩ true = false := by
+  norm_num [inPoly, edges, prevs, vecDir, area2]
+-- `vecDir` takes all three values; `colinear` both
+example : vecDir ⟨0,0⟩ ⟨1,0⟩ ⟨0,1⟩ = 1 ∧ vecDir ⟨0,0⟩ ⟨0,1⟩ ⟨1,0⟩ = -1 ∧ vecDir ⟨0,0⟩ ⟨1,1⟩ ⟨2,2⟩ = 0 ∧
+    colinear ⟨0,0⟩ ⟨1,2⟩ ⟨2,4⟩ = true ∧ colinear ⟨0,0⟩ ⟨1,2⟩ ⟨2,5⟩ = false := by decide +kernel
+
 end AdaptaVerif.Props.C16
